@@ -204,13 +204,17 @@ pub open spec fn r_tell_timeout<M>(this: HandleView, pid: int, d: Duration, l0: 
     }
 }
 
+/// the request id carried by the envelope of the enqueue attempt logged at index i
 pub open spec fn req_at(l: Seq<Eff>, i: int) -> int {
-    if 0 <= i < l.len() { match l[i] { Eff::NewReq(q) => q, _ => 0 } } else { 0 }
+    if 0 <= i < l.len() { match l[i] {
+        Eff::Enq(_, MsgView::Envelope { req: Some(q), .. }) => q,
+        Eff::Rejected(_, MsgView::Envelope { req: Some(q), .. }) => q,
+        _ => 0 } } else { 0 }
 }
 
 /// the ask-side log up to and including the send attempt
 pub open spec fn ask_sent(this: HandleView, pid: int, q: int, l0: Seq<Eff>) -> Seq<Eff> {
-    l0.push(Eff::NewReq(q)).push(Eff::Await(AwaitKind::Send)).push(Eff::Enq(this.mbx, env_view(pid, Some(q), this.mbx)))
+    l0.push(Eff::Await(AwaitKind::Send)).push(Eff::Enq(this.mbx, env_view(pid, Some(q), this.mbx)))
 }
 
 /// the log of one ask exchange as a function of its outcome (q = the fresh request id, vid = id of a received value that
@@ -219,7 +223,7 @@ pub open spec fn ask_core_log<M, R>(this: HandleView, pid: int, q: int, vid: int
     let sent = ask_sent(this, pid, q, l0);
     match r {
         Ok(v) => sent.push(Eff::Await(AwaitKind::Reply)).push(Eff::ReplyRecv(q, val_id(v))),
-        Err(Error::Send { .. }) => dl_log::<M>(l0.push(Eff::NewReq(q)).push(Eff::Await(AwaitKind::Send)).push(Eff::Rejected(this.mbx, env_view(pid, Some(q), this.mbx))),
+        Err(Error::Send { .. }) => dl_log::<M>(l0.push(Eff::Await(AwaitKind::Send)).push(Eff::Rejected(this.mbx, env_view(pid, Some(q), this.mbx))),
                                              this.id, DeadLetterReason::ActorStopped, op),
         Err(Error::Receive { .. }) => dl_log::<M>(sent.push(Eff::Await(AwaitKind::Reply)).push(Eff::ReplyClosed(q)), this.id, DeadLetterReason::ReplyDropped, op),
         Err(Error::Downcast { .. }) => sent.push(Eff::Await(AwaitKind::Reply)).push(Eff::ReplyRecv(q, vid)),
@@ -245,7 +249,7 @@ pub open spec fn recv_vid_at(l: Seq<Eff>, i: int) -> int {
 /// exactly on Send (ActorStopped) and Receive (ReplyDropped).
 pub open spec fn r_ask_core<M, R>(this: HandleView, pid: int, l0: Seq<Eff>, l1: Seq<Eff>, r: Result<R>, op: Seq<char>) -> bool {
     ask_result_ok(this, r)
-    && l1 =~= ask_core_log::<M, R>(this, pid, req_at(l1, l0.len() as int), recv_vid_at(l1, l1.len() - 1), l0, r, op)
+    && l1 =~= ask_core_log::<M, R>(this, pid, req_at(l1, l0.len() as int + 1), recv_vid_at(l1, l1.len() - 1), l0, r, op)
 }
 
 /// R_kill: never suspends (no Await), exactly one try_send of Terminate on the *control* channel, no mailbox effect,
@@ -309,10 +313,10 @@ pub open spec fn r_ask<M, R>(this: HandleView, pid: int, w0: World, w1: World, r
 pub open spec fn r_ask_timeout<M, R>(this: HandleView, pid: int, d: Duration, w0: World, w1: World, r: Result<R>, op: Seq<char>) -> bool {
     let l0 = w0.log();
     let l1 = w1.log();
-    let q = req_at(l1, l0.len() as int);
+    let q = req_at(l1, l0.len() as int + 1);
     match r {
         Err(Error::Timeout { identity, timeout, operation }) => identity == this.id && timeout == d && operation@ == op
-            && (l1 =~= dl_log::<M>(l0.push(Eff::NewReq(q)).push(Eff::TimeoutArmed(d)), this.id, DeadLetterReason::Timeout, op)
+            && (l1 =~= dl_log::<M>(l0.push(Eff::TimeoutArmed(d)), this.id, DeadLetterReason::Timeout, op)
                 || l1 =~= dl_log::<M>(ask_sent(this, pid, q, l0).push(Eff::TimeoutArmed(d)), this.id, DeadLetterReason::Timeout, op)),
         _ => l1.len() > 0 && l1.last() == Eff::TimeoutArmed(d) && r_ask_core::<M, R>(this, pid, l0, l1.drop_last(), r, op),
     }
@@ -354,13 +358,10 @@ pub open spec fn r_weak_alive(this: HandleView, l0: Seq<Eff>, l1: Seq<Eff>, r: b
 pub open spec fn default_capacity(w: World) -> usize {
     match w.cap_cell() { Some(v) => v, None => 32 }
 }
-/// exactly: one id allocation, a mailbox of exactly `cap`, a control channel of exactly 1, one lifecycle task on those
-/// receivers with the caller's args
+/// exactly one lifecycle task, on the receivers of the returned reference's channels, with the caller's args (the channel
+/// bounds are stated separately through Sender::cap())
 pub open spec fn spawn_tail(base: Seq<Eff>, r: HandleView, cap: usize, args_id: int) -> Seq<Eff> {
-    base.push(Eff::FetchAdd(cell_ACTOR_IDS(), 1))
-        .push(Eff::NewChan(r.mbx, cap as nat))
-        .push(Eff::NewChan(r.ctl, 1))
-        .push(Eff::Spawned(r.mbx, r.ctl, args_id))
+    base.push(Eff::Spawned(r.mbx, r.ctl, args_id))
 }
 
 // ---------------------------------------------------------------- deadlock detection (C14, C15)
@@ -538,7 +539,7 @@ pub open spec fn r_ask_tracked_log<M, R>(this: HandleView, pid: int, c: Identity
     &&& c.id != this.id.id
     &&& !reach(g, this.id.id, c.id)
     &&& ask_result_ok(this, r)
-    &&& l1 =~= ask_core_log::<M, R>(this, pid, req_at(l1, l0.len() as int + 2), recv_vid_at(l1, l1.len() - 3), pre, r, op)
+    &&& l1 =~= ask_core_log::<M, R>(this, pid, req_at(l1, l0.len() as int + 3), recv_vid_at(l1, l1.len() - 3), pre, r, op)
                 .push(Eff::Lock(g2)).push(Eff::Unlock(g2.remove(c.id)))
 }
 #[cfg(feature = "deadlock-detection")]
@@ -557,10 +558,10 @@ pub open spec fn r_ask_timeout<M, R>(this: HandleView, pid: int, d: Duration, w0
     let l1 = w1.log();
     match w0.current_actor() {
         None => {
-            let q = req_at(l1, l0.len() as int);
+            let q = req_at(l1, l0.len() as int + 1);
             w1.graph() == w0.graph() && match r {
                 Err(Error::Timeout { identity, timeout, operation }) => identity == this.id && timeout == d && operation@ == op
-                    && (l1 =~= dl_log::<M>(l0.push(Eff::NewReq(q)).push(Eff::TimeoutArmed(d)), this.id, DeadLetterReason::Timeout, op)
+                    && (l1 =~= dl_log::<M>(l0.push(Eff::TimeoutArmed(d)), this.id, DeadLetterReason::Timeout, op)
                         || l1 =~= dl_log::<M>(ask_sent(this, pid, q, l0).push(Eff::TimeoutArmed(d)), this.id, DeadLetterReason::Timeout, op)),
                 _ => l1.len() > 0 && l1.last() == Eff::TimeoutArmed(d) && r_ask_core::<M, R>(this, pid, l0, l1.drop_last(), r, op),
             }
@@ -568,13 +569,13 @@ pub open spec fn r_ask_timeout<M, R>(this: HandleView, pid: int, d: Duration, w0
         Some(c) => {
             let g = lock_map_at(l1, l0.len() as int);
             let pre = l0.push(Eff::Lock(g)).push(Eff::Unlock(g.insert(c.id, this.id)));
-            let q = req_at(l1, l0.len() as int + 2);
+            let q = req_at(l1, l0.len() as int + 3);
             &&& c.id != this.id.id
             &&& !reach(g, this.id.id, c.id)
             &&& !w1.graph().contains_key(c.id)
             &&& match r {
                 Err(Error::Timeout { identity, timeout, operation }) => identity == this.id && timeout == d && operation@ == op
-                    && (l1 =~= dl_log::<M>(pre.push(Eff::NewReq(q)).push(Eff::TimeoutArmed(d)), this.id, DeadLetterReason::Timeout, op)
+                    && (l1 =~= dl_log::<M>(pre.push(Eff::TimeoutArmed(d)), this.id, DeadLetterReason::Timeout, op)
                         || l1 =~= dl_log::<M>(ask_sent(this, pid, q, pre).push(Eff::TimeoutArmed(d)), this.id, DeadLetterReason::Timeout, op)),
                 _ => l1.len() > 0 && l1.last() == Eff::TimeoutArmed(d) && r_ask_tracked_log::<M, R>(this, pid, c, l0, l1.drop_last(), r, op),
             }
